@@ -14,20 +14,17 @@ fn any125(m: &ChannelMask<9>) -> bool {
         || m.get_index(4) != 0 || m.get_index(5) != 0 || m.get_index(6) != 0 || m.get_index(7) != 0
 }
 
-/// I-fix for a given current data rate: a channel of the bandwidth of that data rate is enabled
-/// (otherwise the retry loop of select_tx_channel cannot terminate); join bookkeeping consistent.
+/// I-fix: the current data rate is defined by the region; join bookkeeping is a reachable state.
+/// (Since the "fix: fixed-plan channel selection spins forever ..." commit the channel mask needs
+/// no invariant: selection falls back to the default mask when nothing of the needed bandwidth
+/// is enabled.)
 pub(crate) fn inv<F: FixedChannelRegion>(p: &FixedChannelPlan<F>, dr: DR) -> bool {
-    let ok_dr = match &F::datarates()[(dr as usize) % 15] {
-        Some(d) => {
-            if d.bandwidth == Bandwidth::_500KHz {
-                p.channel_mask.get_index(8) != 0
-            } else {
-                any125(&p.channel_mask)
-            }
-        }
-        None => false,
-    };
-    ok_dr && (dr as u8) < 15 && jch::inv(&p.join_channels)
+    (dr as u8) < 15 && F::datarates()[(dr as usize) % 15].is_some() && jch::inv(&p.join_channels)
+}
+
+/// does the mask enable at least one channel of the class (500 kHz: 64..71, else 0..63)?
+pub(crate) fn any_enabled<F: FixedChannelRegion>(p: &FixedChannelPlan<F>, bw500: bool) -> bool {
+    if bw500 { p.channel_mask.get_index(8) != 0 } else { any125(&p.channel_mask) }
 }
 
 pub(crate) fn same<F: FixedChannelRegion>(a: &FixedChannelPlan<F>, b: &FixedChannelPlan<F>) -> bool {
